@@ -1262,7 +1262,7 @@ impl<const N: usize> udp__AEADCipherCodec<N> {
                     let mut eih = src.split_to(16);
                     /*R2*/
                     a22udp__aes_decrypt_in_place(self.kind, context.key, &mut eih)?;
-                    verif_xor_in_place(&mut eih,session_id_packet_id);
+                    eih.v_xor_with(session_id_packet_id);
                     if let Some(_user) = user_manager.unwrap().clone_user_by_hash(&eih) {
                         /*R2*/
                         user = Some(_user);
@@ -1475,6 +1475,38 @@ fn a22udp__new_cipher(kind: CipherKind, key: &[u8], session_id: u64) -> CipherMe
         }
         _ => verif_panic(),
     }
+}
+
+//@@ octo-squirrel/src/codec/shadowsocks/aead_2022/udp.rs:86-104  fn with_eih  sha=580035083c27ddcf
+fn a22udp__with_eih<const N: usize>(
+    kind: CipherKind,
+    key: &[u8],
+    identity_keys: &[[u8; N]],
+    session_id_packet_id: &[u8],
+    dst: &mut BytesMut,
+) -> anyhow::Result<()> {
+    let len = identity_keys.len();
+    for i in 0..len {
+        let mut identity_header = [0; 16];
+        if i != len - 1 {
+            a22udp__make_eih(kind, &identity_keys[i], &identity_keys[i + 1], session_id_packet_id, &mut identity_header)?;
+        } else {
+            a22udp__make_eih(kind, &identity_keys[i], key, session_id_packet_id, &mut identity_header)?;
+        }
+        dst.extend_from_slice(&identity_header);
+    }
+    Ok(())
+}
+
+//@@ octo-squirrel/src/codec/shadowsocks/aead_2022/udp.rs:106-114  fn make_eih  sha=66392f5da1017ba6
+fn a22udp__make_eih(kind: CipherKind, ipsk: &[u8], ipskn: &[u8], session_id_packet_id: &[u8], identity_header: &mut [u8; 16]) -> anyhow::Result<()> {
+    let hash = blake3::hash(ipskn);
+    let plain_text = &hash.as_bytes()[..16];
+    identity_header.copy_from_slice(plain_text);
+    identity_header.v_xor_with(session_id_packet_id);
+    let res = a22udp__aes_encrypt_in_place(kind, ipsk, identity_header);
+    /*R2*/
+    res
 }
 
 //@@ octo-squirrel-server/src/server/template.rs:39-43  mod message / enum InboundIn  sha=900b92278fa20e17
